@@ -305,7 +305,11 @@ func C20(run *ev.Run, tier string) map[string]interface{} {
 		cl  c20client
 		set []c20reg
 		cfg string
+		// pre is an earlier request issued on the same client before the judged one (a dispatch that
+		// remembers what it resolved before - a cache - must still be exact)
+		pre *c20reg
 	}
+	var seqEvals int64
 	ch := make(chan job, 256)
 	var wg sync.WaitGroup
 	for w := 0; w < 16; w++ {
@@ -378,6 +382,16 @@ func C20(run *ev.Run, tier string) map[string]interface{} {
 					if j.cfg == "register-after-everything" {
 						register()
 					}
+					cfgName := j.cfg
+					if j.pre != nil {
+						j.cl.request(c, *j.pre)
+						// the earlier request may have changed or deleted the item: write it again
+						for _, t := range tables {
+							j.cl.put(c, t)
+						}
+						cfgName = j.cfg + "+after-" + j.pre.kind + "-request"
+						atomic.AddInt64(&seqEvals, 1)
+					}
 					log = nil
 					out, err := j.cl.request(c, req)
 					marker := j.cl.marker(c, req.table)
@@ -421,6 +435,9 @@ func C20(run *ev.Run, tier string) map[string]interface{} {
 					hist[j.cfg]++
 					mu.Unlock()
 					rep := map[string]interface{}{"client": j.cl.name, "config": j.cfg, "registrations": fmt.Sprint(j.set), "request": fmt.Sprint(req)}
+					if j.pre != nil {
+						rep["earlier_request_on_the_same_client"] = fmt.Sprint(*j.pre)
+					}
 					if gotFired != want {
 						switch {
 						case want >= 0 && gotFired == -1:
@@ -428,30 +445,33 @@ func C20(run *ev.Run, tier string) map[string]interface{} {
 							if j.set[want].text != req.text {
 								why = "text-differs-in-whitespace-only"
 							}
-							run.Report(fmt.Sprintf("C20|registered-callback-not-invoked|%s|%s|%s@%s", req.kind, why, j.cfg, j.cl.name), fmt.Sprintf("config %s, registrations %v, request %v: no callback fired (outcome %s, err %v)", j.cfg, j.set, req, out, err), rep)
+							run.Report(fmt.Sprintf("C20|registered-callback-not-invoked|%s|%s|%s@%s", req.kind, why, cfgName, j.cl.name), fmt.Sprintf("config %s, registrations %v, request %v: no callback fired (outcome %s, err %v)", j.cfg, j.set, req, out, err), rep)
 						case gotFired >= 0:
-							run.Report(fmt.Sprintf("C20|wrong-callback-invoked|%s|%s|%s@%s", req.kind, rel, j.cfg, j.cl.name), fmt.Sprintf("config %s, registrations %v, request %v: callback #%d fired, expected #%d", j.cfg, j.set, req, gotFired, want), rep)
+							run.Report(fmt.Sprintf("C20|wrong-callback-invoked|%s|%s|%s@%s", req.kind, rel, cfgName, j.cl.name), fmt.Sprintf("config %s, registrations %v, request %v: callback #%d fired, expected #%d", j.cfg, j.set, req, gotFired, want), rep)
 						default:
-							run.Report(fmt.Sprintf("C20|several-callbacks-invoked|%s|%s@%s", req.kind, j.cfg, j.cl.name), fmt.Sprintf("config %s, registrations %v, request %v: callbacks %v fired", j.cfg, j.set, req, log), rep)
+							run.Report(fmt.Sprintf("C20|several-callbacks-invoked|%s|%s@%s", req.kind, cfgName, j.cl.name), fmt.Sprintf("config %s, registrations %v, request %v: callbacks %v fired", j.cfg, j.set, req, log), rep)
 						}
 						continue
+					}
+					if j.pre != nil && j.pre.kind != "key" && j.pre.kind != "filter" {
+						continue // the earlier request may have changed the item: only the dispatch is judged
 					}
 					// the verdict / mutation is what the operation uses; otherwise safe fall-back
 					if req.kind == "update" {
 						switch {
 						case want >= 0:
 							if err != nil || !strings.Contains(marker, fmt.Sprintf("marker=updater%d;", want)) {
-								run.Report(fmt.Sprintf("C20|updater-mutation-not-used|%s@%s", j.cfg, j.cl.name), fmt.Sprintf("request %v: err %v, item %s", req, err, marker), rep)
+								run.Report(fmt.Sprintf("C20|updater-mutation-not-used|%s@%s", cfgName, j.cl.name), fmt.Sprintf("request %v: err %v, item %s", req, err, marker), rep)
 							}
 						case nativeActive:
 							// no registered updater: unsupported-feature error, item untouched
 							if err == nil || !errors.Is(err, interpreter.ErrUnsupportedFeature) || marker != "a=1;b=1;" {
-								run.Report(fmt.Sprintf("C20|update-without-updater|%s|%s@%s", errClassOf(err), j.cfg, j.cl.name), fmt.Sprintf("request %v with the native interpreter active and no updater: err %v, item %s", req, err, marker), rep)
+								run.Report(fmt.Sprintf("C20|update-without-updater|%s|%s@%s", errClassOf(err), cfgName, j.cl.name), fmt.Sprintf("request %v with the native interpreter active and no updater: err %v, item %s", req, err, marker), rep)
 							}
 						default:
 							wantMarker, valid := c20BuiltinUpdate(req.text)
 							if valid && (err != nil || marker != wantMarker) {
-								run.Report(fmt.Sprintf("C20|builtin-update-not-used-when-native-off|%s@%s", j.cfg, j.cl.name), fmt.Sprintf("request %v: err %v, item %s, want %s", req, err, marker, wantMarker), rep)
+								run.Report(fmt.Sprintf("C20|builtin-update-not-used-when-native-off|%s@%s", cfgName, j.cl.name), fmt.Sprintf("request %v: err %v, item %s, want %s", req, err, marker, wantMarker), rep)
 							}
 						}
 						continue
@@ -473,7 +493,7 @@ func C20(run *ev.Run, tier string) map[string]interface{} {
 						if want >= 0 {
 							which = "matcher-verdict-not-used"
 						}
-						run.Report(fmt.Sprintf("C20|%s|%s|%s@%s", which, req.kind, j.cfg, j.cl.name), fmt.Sprintf("request %v: outcome %s err %v, want %s", req, out, err, wantOut), rep)
+						run.Report(fmt.Sprintf("C20|%s|%s|%s@%s", which, req.kind, cfgName, j.cl.name), fmt.Sprintf("request %v: outcome %s err %v, want %s", req, out, err, wantOut), rep)
 					}
 				}
 			}
@@ -482,7 +502,16 @@ func C20(run *ev.Run, tier string) map[string]interface{} {
 	for _, cl := range []c20client{c20V2(), c20V1()} {
 		for _, cfg := range configs {
 			for _, s := range sets {
-				ch <- job{cl, s, cfg}
+				ch <- job{cl, s, cfg, nil}
+			}
+		}
+		// two requests on one client: every single registration x every earlier request x every request
+		for _, s := range sets {
+			if len(s) != 1 {
+				continue
+			}
+			for pi := range requests {
+				ch <- job{cl, s, "set+activate-after-create", &requests[pi]}
 			}
 		}
 	}
@@ -490,11 +519,12 @@ func C20(run *ev.Run, tier string) map[string]interface{} {
 	wg.Wait()
 	return map[string]interface{}{
 		"evaluations":           evals,
-		"distinct_nontrivial":   int64(len(sets)) * int64(len(configs)) * int64(len(requests)),
+		"two_request_histories": seqEvals,
+		"distinct_nontrivial":   int64(len(sets))*int64(len(configs))*int64(len(requests)) + seqEvals/2,
 		"registration_sets":     len(sets),
 		"requests_per_set":      len(requests),
 		"callbacks_fired":       fired,
-		"rule":                  "(write conditions are requested through PutItem and DeleteItem, on a stored and on an absent key) every set of up to two registrations from 2 tables x {key, filter, conditional, update} x 5 expression texts (two equal up to whitespace, one a permutation of the characters of the first, two different), each with a callback that records its identity and answers the opposite of the built-in interpreter; for each set every request (table, kind, text) on a fresh client; six configurations (native interpreter off; SetInterpreter/Activate before or after CreateTable, in both orders; never activated; registrations added after everything); both SDK clients; a case is distinct by (configuration, registration set, request)",
+		"rule":                  "(write conditions are requested through PutItem and DeleteItem, on a stored and on an absent key) every set of up to two registrations from 2 tables x {key, filter, conditional, update} x 5 expression texts (two equal up to whitespace, one a permutation of the characters of the first, two different), each with a callback that records its identity and answers the opposite of the built-in interpreter; for each set every request (table, kind, text) on a fresh client; six configurations (native interpreter off; SetInterpreter/Activate before or after CreateTable, in both orders; never activated; registrations added after everything); both SDK clients; a case is distinct by (configuration, registration set, request); in addition, for every single registration, every ordered pair of requests on ONE client (the second is judged: dispatch always, outcome when the first was a read)",
 		"oracle":                "the callback that fires is the (last) one registered for exactly that table, kind and whitespace-normalised text and its verdict or mutation is what the operation uses; with no matching registration conditions fall back to the built-in result and updates fail with the unsupported-feature error leaving the item unchanged; nothing fires when the native interpreter is not active",
 		"samples":               []interface{}{"registrations [{tb1 filter 'a = :v'}] request {tb1 filter ':v = a'}", "registrations [{tb1 update 'SET a = :v'}] request {tb1 update '  SET  a   =  :v '}"},
 		"exhaustive":            true,
